@@ -153,7 +153,9 @@ def run(ctx):
     n_neg = 70 if q else 600
     for g in range(n_gen + n_neg):
         nn = rng.randint(1, 6)
-        base = rng.sample(['compute:get', 'compute:list', 'admin_required', 'owner', 'svc:a:b', 'Zed:x', 'a:', ':b', 'volume:create', 'plain'], nn)
+        base = rng.sample(['compute:get', 'compute:list', 'admin_required', 'owner', 'svc:a:b', 'Zed:x', 'a:', ':b', 'volume:create', 'plain',
+                           # names whose order is decided by a character below / above ':' right where another name ends
+                           'compute-ext:get', 'compute.legacy:get', 'compute2:get', 'compute:', 'svc1:x', 'svc10:x', 'svc:', 'svc%:a', 'compute_z:get', 'Compute:get'], nn)
         if rng.random() < 0.6:
             base.append('default')
         rules = [(n, body(rng, base[i + 1:], rng.choice([1, 2, 3, 5]))) for i, n in enumerate(base)]
